@@ -1,0 +1,18 @@
+//go:build verif
+
+// Contracts for package mono, checked by /verif/govc (see /verif/DESIGN.md).
+// This file contains only comments: it adds no code to any build.
+
+package mono
+
+// Now: ASSUMED (not verified): the process has been up for between one second
+// and 2^32 seconds and the wall clock behaves, so that new() does not panic.
+//@ func Now
+//@   trusted
+//@   noalloc
+//@   props    C03 C02 C10
+
+//@ func (Time).Sub
+//@   alloc    0
+//@   ensures  [spec] $r0 == (t1 < t2 ? 0 : uint32(t1) - uint32(t2))
+//@   props    C03
